@@ -153,6 +153,13 @@ def parseHow? (dst crs su rot bb cp fs : String) : Option How :=
     let fs ← C11.Drv.parsePair? fs
     pure (.crs c ⟨su, rot, bb, cp, fs⟩)
 
+/-- `srcKw;dstKw;attr;lo;hi`, each `N` or a rational (`lo`/`hi` both `N`: no range) -/
+def parseNodataVals? (s : String) : Option NodataVals :=
+  match (s.splitOn ";").mapM (parseOpt? parseRat?) with
+  | some [a, b, c, lo, hi] =>
+    some ⟨a, b, c, match lo, hi with | some l, some h => some (l, h) | _, _ => none⟩
+  | _ => none
+
 /-- `full = false`: the affine is elided (shape requests: `span / n` is not exact in doubles) -/
 def fmtGeoBoxF (full : Bool) (g : GeoBox) : String :=
   if full then fmtRecovered (.lin g) else s!"L {g.ny} {g.nx} * {fmtCrs g.crs}"
@@ -227,6 +234,13 @@ def run (args : List String) : Option String :=
       | _ => none)
     let ids := (crsFromAttrs ds).map (·.id)
     pure (fmtList (fun (n : Nat) => toString n) (ids.toArray.qsort (· < ·)).toList)
+  | ["zerosfix", src, time, cn, nodata, attrs] => do
+    let s ← parseSrc? src
+    let time ← parseTime? time
+    let cn ← parseOpt? some cn
+    let nd ← parseBool? nodata
+    let attrs ← parseListRaw? attrs
+    pure (fmtRes fmtW (xrZerosFixed s time cn nd attrs))
   | ["nodata", a, b] => do
     let a ← parseAttrNum? a; let b ← parseAttrNum? b
     pure (fmtOpt fmtRat (odcNodata a b))
@@ -241,7 +255,7 @@ def run (args : List String) : Option String :=
           | .crs _ => true | .scalar => true | _ => false) ++ [("t", .other 3)], none, []⟩
         xarrayGeobox (order.map fun o => if o = "g" then ("g", { a with gridMapping := none }) else ("n", c))))
   | ["reprcrs", src, nt, nb, cn, ops, attrs, dst, crs, su, rot, bb, cp, fs, res, shape, tight, anchor, tol, rnd, extra,
-      nodata, post, full] => do
+      nodata, post, full, ndv] => do
     -- xr_reproject(DataArray, how, **grid options, **extra, dst_nodata=…), then a history on the result
     let r ← build src nt nb cn ops attrs
     let how ← parseHow? dst crs su rot bb cp fs
@@ -250,13 +264,16 @@ def run (args : List String) : Option String :=
     let nd ← parseBool? nodata
     let post ← parseList? parseOp? post
     let full ← parseBool? full
+    let ndv ← parseNodataVals? ndv
+    let _ := nd
     pure (fmtRes (fmtOutF full) (match r with
       | .error e => .error e
-      | .ok a => match xrReprojectDa a how ga extra nd with
+      | .ok a => match xrReprojectDaChecked a how ga extra ndv with
         | .error e => .error e
         | .ok o => applyOps o post))
   | ["reprcrsds", src, nt, nb, cn, ops, attrs, dsattrs, dsgm, extraVar, dst, crs, su, rot, bb, cp, fs, res, shape, tight,
-      anchor, tol, rnd, extra, full] => do
+      anchor, tol, rnd, extra, full, ndv] => do
+    let ndv ← parseNodataVals? ndv
     let r ← build src nt nb cn ops attrs
     let how ← parseHow? dst crs su rot bb cp fs
     let ga ← parseGridArgs? res shape tight anchor tol rnd
@@ -268,7 +285,7 @@ def run (args : List String) : Option String :=
     let res : Res (List String × List (String × XArr)) :=
       match r with
       | .error e => .error e
-      | .ok a => xrReprojectDs dsattrs dsgm (mkDs a extraVar) how ga extra
+      | .ok a => xrReprojectDsChecked dsattrs dsgm (mkDs a extraVar) how ga extra ndv
     let fmtNoAff := fun (r : List String × List (String × XArr)) =>
       "noaff " ++ " ".intercalate ((r.2.filter (fun nv => nv.1 = "a" || nv.1 = "b")).map
         fun nv => s!"{nv.1}={fmtRes (fmtRecF false) (recover nv.2)}")
